@@ -36,6 +36,7 @@ type c04Case struct {
 	Actions []c04Action `json:"actions"`
 	Probe   c04Probe    `json:"probe"`
 	Foreign bool        `json:"foreign"` // also check a harness-signed file ("vice versa")
+	Pad     int         `json:"pad,omitempty"` // bytes of build log (link) or readme (layout) added before anything else: metadata files of some size
 }
 
 func c04Gen(t *rapid.T) c04Case {
@@ -76,6 +77,7 @@ func c04Gen(t *rapid.T) c04Case {
 		B:     rapid.IntRange(0, 1<<16).Draw(t, "pb"),
 		Other: rapid.SampledFrom(append([]string{"ecdsa-p256-0", "ecdsa-p256-1", "ecdsa-p256-0", "ed25519-3"}, hx.CheapPoolNames()...)).Draw(t, "other"),
 	}
+	c.Pad = rapid.SampledFrom([]int{0, 0, 0, 0, 0, 70000, 300000}).Draw(t, "pad")
 	return c
 }
 
@@ -132,6 +134,24 @@ func c04CheckAll(md intoto.Metadata, model map[string]bool, stale map[string]boo
 func c04Run(c c04Case, r *hx.Rec) error {
 	if (c.Meta.Link == nil) == (c.Meta.Layout == nil) || c.Meta.HasFloat() {
 		return nil
+	}
+	if c.Pad > 0 {
+		text := strings.Repeat("compiled one more unit\n", c.Pad/23+1)
+		if c.Meta.Link != nil {
+			l := *c.Meta.Link
+			bp := hx.MObj{}
+			for k, v := range l.ByProducts {
+				bp[k] = v
+			}
+			bp["build-log"] = hx.MVal{K: "s", S: text}
+			l.ByProducts = bp
+			c.Meta = hx.MMeta{Link: &l}
+		} else {
+			lay := *c.Meta.Layout
+			lay.Readme += text
+			c.Meta = hx.MMeta{Layout: &lay}
+		}
+		r.Label("padded-metadata")
 	}
 	dir, err := os.MkdirTemp("", "c04-")
 	if err != nil {
@@ -344,6 +364,23 @@ func c04Run(c c04Case, r *hx.Rec) error {
 				}
 			}
 			r.Label("foreign-cosigned")
+		}
+	}
+
+	// a stranger's key that carries an abbreviated form of a signer's key id (what link file names show)
+	// has signed nothing here
+	if stranger := hx.PoolKey(c.Probe.Other); !model[stranger.Name] {
+		for name := range model {
+			id := hx.PoolKey(name).KeyID
+			for _, short := range []string{id[:8], id[:len(id)-1], id[:1+c.Probe.A%20], strings.ToUpper(id)} {
+				key := stranger.Pub()
+				key.KeyID = short
+				if err := md.VerifySignature(key); err == nil {
+					return fmt.Errorf("VerifySignature succeeds for the public key of %s presented under the key id %q; the metadata is signed by %s (%s) only", stranger.Name, short, name, id)
+				}
+			}
+			r.Label("stranger-under-abbreviated-keyid")
+			break
 		}
 	}
 
